@@ -533,8 +533,8 @@ Section Loop.
            superstep exec r g (ready_state g sk) pv (ready_list g sk) = (SErr e p, calls)) \/
         (e = EInfiniteLoop /\ exists sk, steps r g pv fuel st sk /\ ready_list g sk <> [] /\ p = ready_state g sk)
     | RPaused pz s =>
-        exists k sk calls, k < fuel /\ steps r g pv k st sk /\ ready_list g sk <> [] /\
-           superstep exec r g (ready_state g sk) pv (ready_list g sk) = (SPause pz s, calls)
+        exists k sk s2 calls, k < fuel /\ steps r g pv k st sk /\ ready_list g sk <> [] /\
+           superstep exec r g (ready_state g sk) pv (ready_list g sk) = (SPause pz s2, calls) /\ s = ready_state g sk
     end.
   Proof.
     induction fuel as [|k IH]; intros st log; simpl.
@@ -555,10 +555,10 @@ Section Loop.
           -- destruct IH as [(j & sk & c & Hj & Hst & Hr & Hs)|(-> & sk & Hst & Hr & ->)].
              ++ left. exists (S j), sk, c. repeat split; auto; lia.
              ++ right. split; [reflexivity|]. exists sk. repeat split; auto.
-          -- destruct IH as (j & sk & c & Hj & Hst & Hr & Hs). exists (S j), sk, c. repeat split; auto; lia.
+          -- destruct IH as (j & sk & s2 & c & Hj & Hst & Hr & Hs & ->). exists (S j), sk, s2, c. repeat split; auto; lia.
         * left. exists 0, st, calls. unfold ready_list, ready_state. rewrite Er. simpl.
           repeat split; [lia | constructor | discriminate | exact Es].
-        * exists 0, st, calls. unfold ready_list, ready_state. rewrite Er. simpl.
+        * exists 0, st, s, calls. unfold ready_list, ready_state. rewrite Er. simpl.
           repeat split; [lia | constructor | discriminate | exact Es].
   Qed.
 
@@ -868,3 +868,83 @@ Proof.
     rewrite ver_update_sentinel. lia.
   - eapply Nat.le_lt_trans; [|apply IH; exact Hin]. apply (le_st_update st k v s).
 Qed.
+
+(* ------------------------------------------------------------------ *)
+(* 7. Failures: which error surfaces, and what the partial state contains (C11) *)
+
+Section Failures.
+  Variable exec : node -> state -> dict val -> outcome.
+
+  (* the error reported by a superstep is the one raised by a ready node's executor (or the
+     KeyError of an unresolvable input, which C08 shows unreachable) — never a wrapper *)
+  Lemma first_failure_origin g snap pv rd e :
+    first_failure exec g snap pv rd = Some (inl e) ->
+    exists pre n post, rd = pre ++ n :: post /\ snd (run_one exec g snap pv n) = ORaise e /\
+      Forall (step_ok exec g snap pv) pre.
+  Proof.
+    induction rd as [|a rd IH]; simpl; intros H; [discriminate|].
+    destruct (run_one exec g snap pv a) as [oi oc] eqn:Er. simpl in H. destruct oc as [outs dec|e'|p].
+    - destruct (IH H) as (pre & n & post & -> & Hn & Hpre).
+      exists (a :: pre), n, post. split; [reflexivity|]. split; [exact Hn|].
+      constructor; [|exact Hpre].
+      assert (exists ins, oi = Some ins) as [ins ->].
+      { unfold run_one in Er. destruct (collect_inputs g snap pv a (n_inputs a)); [|discriminate]. injection Er as <- _. eauto. }
+      exists ins, outs, dec. exact Er.
+    - injection H as <-. exists [], a, rd. split; [reflexivity|]. rewrite Er. split; [reflexivity | constructor].
+    - discriminate.
+  Qed.
+
+  Theorem superstep_error_origin r g snap pv rd e p calls :
+    List.filter is_interrupt rd = [] ->
+    superstep exec r g snap pv rd = (SErr e p, calls) ->
+    exists pre n post, rd = pre ++ n :: post /\ snd (run_one exec g snap pv n) = ORaise e /\
+      Forall (step_ok exec g snap pv) pre.
+  Proof.
+    intros Hni H. apply first_failure_origin.
+    destruct r.
+    - simpl in H. rewrite <- (superstep_sync_err exec g snap pv rd snap []). rewrite H. reflexivity.
+    - simpl in H. unfold superstep_async, isolate in H. rewrite Hni in H.
+      destruct (first_failure exec g snap pv rd) as [[e'|p']|]; inversion H; subst; reflexivity.
+  Qed.
+
+  (* the partial state of a failing SYNC step: exactly the nodes listed before the failing one
+     have been applied (in parallel, against the snapshot) *)
+  Lemma superstep_sync_partial g snap pv : forall rd acc log e p calls,
+    superstep_sync exec g snap pv rd acc log = (SErr e p, calls) ->
+    (exists pre n post, rd = pre ++ n :: post /\ Forall (step_ok exec g snap pv) pre /\
+       ((exists ins, run_one exec g snap pv n = (Some ins, ORaise e) /\
+          p = fold_left (apply_success exec g snap pv) pre (write_decisions exec g snap pv pre acc)) \/
+        (run_one exec g snap pv n = (None, ORaise EKeyError) /\ e = EKeyError /\ p = snap))).
+  Proof.
+    induction rd as [|a rd IH]; intros acc log e p calls H; simpl in H; [discriminate|].
+    destruct (collect_inputs g snap pv a (n_inputs a)) as [ins|] eqn:Ec.
+    - destruct (exec a snap ins) as [outs dec|e'|pz] eqn:Ee.
+      + apply IH in H as (pre & n & post & -> & Hpre & Hcase).
+        assert (Hok : step_ok exec g snap pv a).
+        { exists ins, outs, dec. unfold run_one. rewrite Ec, Ee. reflexivity. }
+        exists (a :: pre), n, post. split; [reflexivity|]. split; [constructor; assumption|].
+        destruct Hcase as [(ins' & Hn & ->)|Hk]; [|right; exact Hk].
+        left. exists ins'. split; [exact Hn|]. simpl.
+        assert (Hr : run_one exec g snap pv a = (Some ins, OOk outs dec)) by (unfold run_one; rewrite Ec, Ee; reflexivity).
+        rewrite (commit_as_apply exec g snap pv acc a ins outs dec Hr).
+        rewrite write_apply_commute. f_equal.
+        unfold write_decisions at 2. simpl. rewrite Hr. simpl. destruct dec; reflexivity.
+      + injection H as <- <- _. exists [], a, rd. split; [reflexivity|]. split; [constructor|].
+        left. exists ins. split; [unfold run_one; rewrite Ec, Ee; reflexivity | reflexivity].
+      + discriminate.
+    - injection H as <- <- _. exists [], a, rd. split; [reflexivity|]. split; [constructor|].
+      right. split; [unfold run_one; rewrite Ec; reflexivity | split; reflexivity].
+  Qed.
+
+  (* values computed in earlier steps are never lost in a partial state *)
+  Theorem partial_keeps_earlier r g snap pv rd e p calls x v :
+    dom_inv snap -> superstep exec r g snap pv rd = (SErr e p, calls) ->
+    vals snap !! x = Some v -> vals p !! x <> None.
+  Proof.
+    intros Hd H Hx.
+    pose proof (superstep_le exec r g snap pv rd) as Hle. rewrite H in Hle. simpl in Hle.
+    pose proof (superstep_dom exec r g snap pv rd Hd) as Hdp. rewrite H in Hdp. simpl in Hdp.
+    intros Hn. apply Hdp in Hn. assert (ver snap x <> 0) by (intros E; apply Hd in E; congruence).
+    destruct (Hle x) as [L _]. lia.
+  Qed.
+End Failures.
